@@ -1,0 +1,10 @@
+//go:build verif
+
+package container
+
+// VerifRingState exposes the ring buffer's indices to the verification harness
+// (coverage evidence: growths that happened with a wrapped head). It is compiled
+// only with the "verif" build tag.
+func (q *Queue[T]) VerifRingState() (first, next, capacity int) {
+	return q.first, q.next, cap(q.base)
+}
